@@ -188,6 +188,11 @@ def family_a_jobs(ck, quick):
                      "files": {"rules.asm": "#ruledef\n{\n    ld {x: u8} => 0x11 @ x\n    ldm {v} => asm { ld {v} }\n}",
                                "main.asm": "#include \"rules.asm\"\n    ld 1\n    ldm %s\n" % operand}})
         names.append("through-asm-block:%d" % k)
+        # ... and inside a sub-rule operand of the substituted line
+        jobs.append({"mode": "asm", "std": True, "roots": ["main.asm"], "want": WANT,
+                     "files": {"rules.asm": "#subruledef imm\n{\n    #{v: u4} => v\n}\n#ruledef\n{\n    ldi {i: imm} => 0x1 @ i\n    ldm {v} => asm { ldi #{v} }\n}",
+                               "main.asm": "#include \"rules.asm\"\n    ldi #1\n    ldm %s\n" % operand}})
+        names.append("through-asm-block-nested:%d" % k)
     small = [(n, j) for n, j in bases if len(j["files"][j["roots"][0]]) <= 1500]
     for k in range(6000 if quick else 120000):            # mutants, plain and decorated
         n, j = rng.choice(small if rng.random() < 0.9 else bases)
@@ -512,6 +517,25 @@ def run_c13(ck):
         if i % 1500 == 7:
             ck.sample({"input": name, "files": c["files"], "fault_line": c["line"],
                        "printed": (r.get("printed") or "")[:300]}, limit=6)
+
+    # ---- directed faults whose first message could come from somewhere else: an undefined symbol in a condition, with
+    # something after the #if that needs a name declared only inside it
+    directed = [("main.asm", 1, {"main.asm": "#if NOSUCH == 1\n{\n    ROM_BASE = 0x8000\n}\n#bankdef rom\n{\n    #addr ROM_BASE\n    #outp 0\n}\n#d8 1\n"}),
+                ("main.asm", 3, {"main.asm": "A = 1\n#d8 A\n#if A == NOSUCH\n{\n    W = 8\n}\n#ruledef\n{\n    ld {x: u8} => 0x10 @ x`W\n}\nld 1\n"}),
+                ("main.asm", 2, {"main.asm": "#d8 1\n#if NOSUCH\n{\n    K = 3\n}\n#d8 K\n"})]
+    jobs_d = [{"mode": "asm", "files": f, "roots": ["main.asm"], "want": WANT} for _, _, f in directed]
+    for (ff, fl, f), j, r in zip(directed, jobs_d, common.run_jobs(jobs_d, os.path.join(ck.wd, "jobs-directed"))):
+        if r.get("panic") or r.get("crash"):
+            note_panic("directed", j, r, "fault")
+            continue
+        case = len(info)
+        e = fault_event(case, j, r.get("messages"), ff, fl)
+        info[case] = {"name": "fault:condition/undefined-symbol:ascii@%s#%d" % (ff, fl), "job": j, "family": "fault",
+                      "fault": {"kind": "condition", "variant": "undefined-symbol", "deco": "ascii", "file": ff, "line": fl, "pos": 1, "npos": 1, "files": f},
+                      "event": e, "shape": "ascii", "printed": r.get("printed")}
+        events.append(e)
+        stats["fault_events"] += 1
+        ck.nontrivial_add(("fault", "condition", "undefined-symbol", "ascii", True, "first"))
 
     # ---- TLC judges
     failed = tv.judge(ck, "TraceDiag", "TraceDiag.cfg", events, ck.wd, tag="diag", shard=1500)
